@@ -41,7 +41,7 @@ RULE = ("complete table: every errno of the connection-loss set, EAGAIN/EWOULDBL
         "and through serviceTxes()/serviceReceives(), after 0..2 (thorough 0..5) successful operations; the same errors from "
         "sendto/recvfrom under SocketUdpNb, UdpStack (real SocketUdpNb on a socket double) and GramStack (handler "
         "double); the stream rows also on reconnectable clients, and send / recv rows on connections already cut off by an earlier loss error or orderly close; distinct = distinct table row; every row injects one error, so every row is non-trivial")
-RULE = __import__("vf.core", fromlist=["rule_add"]).rule_add(RULE, 'also service calls (incl. serviceConnect) after the cutoff: the mark must stay until a reopen')
+RULE = __import__("vf.core", fromlist=["rule_add"]).rule_add(RULE, 'also service calls (incl. serviceConnect) after the cutoff: the mark must stay until a reopen; the idle / reconnect timer is part of the state a would-block must not change (time passes before the operation)')
 META = {"engine": "D I/O doubles", "technique": "exhaustive classification table on socket doubles",
         "level_text": "the table of error x operation x class named by the property is finite and is executed completely",
         "level_note": "errors are produced by doubles with the errno / ssl error code a real socket would carry; "
